@@ -189,6 +189,23 @@ class C02(Check):
             if len({u.supi for u in ues}) != len(ues) or len({u.ran for u in ues}) != len(ues):
                 self.violation({"theorem_or_stream": "process: UE identities", "input": {"counts": counts}, "observed": row["ues"], "why": "two UEs share a SUPI or RAN-UE-NGAP-ID"})
             rows.append(row)
+        # an unsolicited downlink message overtakes the second UE's setup request (an accepting network may send one at any
+        # time): the emulator may handle it or stop, but whatever it REPORTS is what the network assigned, and it answers no
+        # setup request it has not read (the reference SMF rejects a response for a session it has not asked for)
+        un = proc.default_cfg(counts=[2, 2, 0, 0, 0])
+        un["unsolicited_before_setup"] = 2
+        ru = proc.run(binary, un, self.seed, strict=False, timeout=120)
+        with self._lock:
+            self.cov["evaluations"] += 1
+            self._distinct.add("unsolicited-before-setup")
+        rep = {m.group(1): (m.group(2), int(m.group(3)), m.group(4)) for m in re.finditer(r"VERIF-SESSION imsi-(\d+) (\S+) (\d+) (\S+)", ru["stdout"])}
+        exp = {u.supi: (".".join(str(b) for b in u.ip), int.from_bytes(u.teid, "big"), ".".join(str(b) for b in u.upf)) for u in ru["amf"].ues.values() if hasattr(u, "ip")}
+        wrong = {k: v for k, v in rep.items() if exp.get(k) != v}
+        self.cov["unsolicited_before_setup"] = {"rc": ru["rc"], "verdict": ru["verdict"], "reported": rep, "assigned": exp}
+        if wrong or ru["verdict"].startswith("REJECT") or ru["rc"] == "HANG":
+            self.violation({"theorem_or_stream": "process: unsolicited downlink message before a setup request", "input": {"counts": un["counts"], "imsi": un["imsi"], "unsolicited_before_setup": 2},
+                            "observed": {"rc": ru["rc"], "verdict": ru["verdict"], "reported": rep, "stdout": ru["stdout"][-600:]}, "expected": {"assigned": exp},
+                            "why": "after an unsolicited downlink message the emulator reported session data the network did not assign to that UE, or answered a setup request it had not read"})
         # the session-identity finding
         r = runs[-1]
         key = "C02:session-id-above-255"
